@@ -12,6 +12,7 @@ import (
 	"tunnox-core/internal/cloud/configs"
 	"tunnox-core/internal/cloud/models"
 	"tunnox-core/internal/cloud/stats"
+	"tunnox-core/internal/core/storage/memory"
 	"tunnox-core/internal/core/types"
 	"tunnox-core/internal/packet"
 )
@@ -152,13 +153,16 @@ func Harness_C02_session() {
 		Status: models.MappingStatusActive, Protocol: models.ProtocolUDP, TargetHost: "127.0.0.1", TargetPort: 53,
 		Config: configs.MappingConfig{BandwidthLimit: limit}}}})
 	sm.SetTunnelHandler(s02Tunnels{})
+	routing := NewTunnelRoutingTable(memory.New(ctx), time.Minute)
+	sm.SetTunnelRoutingTable(routing)
 
 	nS, nT := verif_IntRange(0, verif_Bound("payload")), verif_IntRange(0, verif_Bound("payload"))
 	dS, cS := s02Script(nS)
 	dT, cT := s02Script(nT)
 	// 0: the source ends after its data, 1: the target does, 2: the harness closes the source
-	// after quiescence, 3: the target client never attaches
-	ender := verif_Choose(4)
+	// after quiescence, 3: the target client never attaches, 4: the bridge is closed (source gone,
+	// shutdown) while it still waits for the target
+	ender := verif_Choose(5)
 
 	src := newS02End("src", dS, cS, ender == 0)
 	tunnelID, err := sm.StartServerTunnel("pm1", src)
@@ -168,10 +172,23 @@ func Harness_C02_session() {
 	_, registered := sm.tunnelBridges[tunnelID]
 	sm.bridgeLock.RUnlock()
 	verif_Assert("C02s.registered_while_waiting", registered)
+	ws, werr := routing.LookupWaitingTunnel(ctx, tunnelID)
+	verif_Assert("C02s.routable_while_waiting", werr == nil && ws != nil && ws.SourceNodeID == "node-A" && ws.MappingID == "pm1")
+	if ender == 4 {
+		sm.bridgeLock.RLock()
+		br := sm.tunnelBridges[tunnelID]
+		sm.bridgeLock.RUnlock()
+		br.Close()
+		verif_Quiesce()
+		// well within the record's lifetime: it is the lifecycle's clean-up that must remove it
+		_, werr3 := routing.LookupWaitingTunnel(ctx, tunnelID)
+		verif_Assert("C02s.closed_while_waiting.no_longer_routable", werr3 != nil)
+		verif_Cover("C02s.closed_while_waiting")
+	}
 
 	dst := newS02End("dst", dT, cT, ender == 1)
 	ackLen := 0
-	if ender != 3 {
+	if ender != 3 && ender != 4 {
 		_, cerr := sm.CreateConnection(dst, dst)
 		verif_Assert("C02s.setup.conn", cerr == nil)
 		hs, _ := json.Marshal(&packet.HandshakeRequest{ClientID: 1002, ConnectionType: "tunnel"})
@@ -188,7 +205,7 @@ func Harness_C02_session() {
 
 	gotT, closedT := dst.snapshot()
 	gotS, closedS := src.snapshot()
-	if ender != 3 {
+	if ender != 3 && ender != 4 {
 		verif_Assert("C02s.ack_intact", len(gotT) >= ackLen)
 		gotT = gotT[ackLen:]
 	}
@@ -206,19 +223,21 @@ func Harness_C02_session() {
 		time.Sleep(time.Hour)
 		verif_Quiesce()
 		verif_Cover("C02s.open_then_closed")
-	case 3:
-		// nobody came within the 30 s window: the source is released
+	case 3, 4:
+		// nobody came within the 30 s window / the bridge was closed first: the source is released
 		verif_Assert("C02s.no_target.nothing_sent", len(gotT) == 0)
 		verif_Cover("C02s.no_target")
 	}
 	_, closedT = dst.snapshot()
 	_, closedS = src.snapshot()
 	verif_Assert("C02s.source_closed", closedS)
-	verif_Assert("C02s.target_closed", ender == 3 || closedT)
+	verif_Assert("C02s.target_closed", ender == 3 || ender == 4 || closedT)
 	sm.bridgeLock.RLock()
 	_, still := sm.tunnelBridges[tunnelID]
 	n := len(sm.tunnelBridges)
 	sm.bridgeLock.RUnlock()
 	verif_Assert("C02s.tunnel_forgotten", !still && n == 0)
+	_, werr2 := routing.LookupWaitingTunnel(ctx, tunnelID)
+	verif_Assert("C02s.no_longer_routable", werr2 != nil)
 	verif_Cover("C02s.done")
 }
